@@ -78,3 +78,15 @@ CHECKS["C06"] = {
             "connection that saw stray bytes / FIN / reset is never handed out again, and keys never share a transport.",
     "note": TRUST + " d=2 quick, 3 thorough. Stray bytes that reach the client only after the next request already owns the connection are indistinguishable from its answer and are not counted.",
 }
+
+CHECKS["C16"] = {
+    "engine": "SEQ",
+    "design_ref": "§3 C16, §2.4, §2.6",
+    "technique": "explicit-state BFS over CookieJar operation histories (real object, virtual clock) vs RFC 6265 reference store, full URL-lattice query after every step",
+    "text": "Every history up to the depth bound over Set-Cookie ops (a base cookie with up to two varied dimensions out of response host, Domain, Path, response path, Secure, "
+            "expiry form, name - 157 to 400 ops), clock ticks, clear, clear_domain, save+load and mutating filter_cookies calls is executed on the real CookieJar; in every "
+            "reachable canonical state (reference store + all jar side tables) 50 request URLs (5 related hosts x 2 schemes x 5 paths) are queried and compared with an "
+            "independent RFC 6265 store: no value the reference would not send (host-only, domain, path, Secure, expiry, foreign-domain acceptance), none missing.",
+    "note": TRUST + " Set-Cookie enters through update_cookies_from_headers (the ClientSession path); clock = aiohttp.cookiejar.time rebound; no public-suffix list; "
+            "when several same-named cookies match, the jar's single value must be one of the reference's.",
+}
